@@ -319,6 +319,17 @@ class CallMixin(ExprMixin):
                     return self.inline_call(st, rt.cls, th.name, recv, args, kw, node)
                 if th.name == "create_future":
                     return [(st, self.new_future(st))]          # loop.create_future()
+                helper = self.small_helper(rt.cls, th.name)
+                if helper is not None:
+                    # an un-contracted helper of the class under contract (typically the product of an "extract method"
+                    # refactoring): its body is verified in place, as part of the caller, instead of giving up
+                    self.trusted_used.add("helper %s.%s has no contract of its own: its body is inlined into the caller's proof"
+                                          % (rt.cls, th.name))
+                    self._inlining = getattr(self, "_inlining", 0) + 1
+                    try:
+                        return self.inline_call(st, rt.cls, th.name, recv, args, kw, node)
+                    finally:
+                        self._inlining -= 1
                 raise Unsupported("call to %s.%s without contract or model (line %s)" % (rt.cls, th.name, self.cur_line))
             if isinstance(rt, (List, Set, Dict)) or rt == BYTES:
                 return self.container_method(st, recv, th.name, args, kw, node)
@@ -335,6 +346,10 @@ class CallMixin(ExprMixin):
                         con = con or C.BY_FUNC.get((md, "%s.%s" % (recv.t.name, th.name)))
                 if con is not None:
                     return self.apply_contract(st, con, None, args, kw, node)
+            if rt == STR and th.name in ("startswith", "endswith") and len(args) == 1 and args[0].ty == STR:
+                # strings are an uninterpreted sort: the test is a fixed but unknown function of the two strings
+                f = z3.Function("str_" + th.name, STR.sort(), STR.sort(), z3.BoolSort())
+                return [(st, V(BOOL, f(recv.t, args[0].t)))]
             raise Unsupported("method %s on %s (line %s)" % (th.name, rt, self.cur_line))
         if k == "enumcls":
             # Enum(value)
@@ -439,7 +454,71 @@ class CallMixin(ExprMixin):
                 else:
                     raise Unsupported("getattr(%s, %r) (line %s)" % (o.ty, attr, self.cur_line))
             return res
+        if n in ("any", "all") and isinstance(e.args[0], ast.GeneratorExp) and len(e.args[0].generators) == 1 \
+                and not e.args[0].generators[0].ifs and isinstance(e.args[0].generators[0].target, ast.Name):
+            return self.any_all(st, n, e.args[0])
         raise Unsupported("builtin %s over a comprehension (line %s)" % (n, self.cur_line))
+
+    def any_all(self, st, n, gen):
+        """any(elt for x in S) / all(...) for a set or list S and an element expression that is pure up to `x.result()` of
+        futures. The result is a fresh Boolean tied to the quantified statement over the members; `x.result()` of a member
+        that is not done-with-a-result may raise (any/all stop at the first deciding member, in an order nobody promises:
+        both the exception and each normal outcome consistent with some order are kept)."""
+        g = gen.generators[0]
+        var = g.target.id
+        calls = [c for c in ast.walk(gen.elt) if isinstance(c, ast.Call)]
+        for c in calls:
+            ok = isinstance(c.func, ast.Attribute) and isinstance(c.func.value, ast.Name) and c.func.value.id == var \
+                and c.func.attr in ("result", "done", "cancelled") and not c.args
+            if not ok:
+                raise Unsupported("any/all over an element expression with the call %s (line %s)" % (ast.unparse(c), self.cur_line))
+        res = []
+        for s, it in self.ev(g.iter, st):
+            if isinstance(it.ty, Set):
+                ety = it.ty.elem
+                q = z3.FreshConst(ety.sort(), "q")
+                member = z3.Select(it.t, q)
+                bound = [q]
+                xv = V(ety, q)
+            elif isinstance(it.ty, List):
+                ety = it.ty.elem
+                i = z3.FreshConst(T.INT.sort(), "qi")
+                member = z3.And(i >= 0, i < T.list_len(it).t)
+                bound = [i]
+                xv = V(ety, z3.Select(T.list_arr(it), i))
+            else:
+                raise Unsupported("any/all over %s (line %s)" % (it.ty, self.cur_line))
+            truth = self.spec_bool(ast.unparse(gen.elt), s, extra={var: xv})
+            may_raise = None
+            if any(c.func.attr == "result" for c in calls):
+                if not (isinstance(ety, Ref) and ety.cls == "Future"):
+                    raise Unsupported("any/all: .result() of %s (line %s)" % (ety, self.cur_line))
+                state = z3.Select(self.hmap(s, "Future", "state", INT), xv.t)
+                may_raise = z3.Exists(bound, z3.And(member, state != T.intval(1).t))
+                if not (self.spec or self.no_oblige):
+                    s2 = s.copy().assume(may_raise)
+                    if self.feasible(s2):
+                        self.raise_(s2, "BaseException")
+            some_true = z3.Exists(bound, z3.And(member, truth))
+            some_false = z3.Exists(bound, z3.And(member, z3.Not(truth)))
+            b = z3.FreshConst(z3.BoolSort(), n)
+            if n == "any":
+                s.assume(z3.Implies(b, some_true))
+                s.assume(z3.Implies(z3.Not(b), z3.Not(some_true) if may_raise is None else z3.BoolVal(True)))
+                if may_raise is not None:
+                    # False needs every member visited: none raised, none was true
+                    s.assume(z3.Implies(z3.Not(b), z3.And(z3.Not(may_raise), z3.Not(some_true))))
+                    # without a raising member the answer is determined
+                    s.assume(z3.Implies(z3.Not(may_raise), b == some_true))
+            else:
+                s.assume(z3.Implies(z3.Not(b), some_false))
+                if may_raise is not None:
+                    s.assume(z3.Implies(b, z3.And(z3.Not(may_raise), z3.Not(some_false))))
+                    s.assume(z3.Implies(z3.Not(may_raise), b == z3.Not(some_false)))
+                else:
+                    s.assume(b == z3.Not(some_false))
+            res.append((s, V(BOOL, b)))
+        return res
 
     def call_builtin(self, st, n, args, kw, node):
         if n == "len":
@@ -1070,6 +1149,28 @@ class CallMixin(ExprMixin):
             else:
                 raise Unsupported("inline outcome %s" % o.kind)
         return res
+
+    def small_helper(self, cls, name):
+        """The AST of method `name` of the real class behind class model `cls`, if it is defined in the module under
+        verification, is synchronous, loop-free, not recursive and small; None otherwise."""
+        if self.spec or getattr(self, "_inlining", 0) >= 2:
+            return None
+        cm = C.CLASSES.get(cls)
+        if cm is None or not cm.real or cm.real.split(":")[0] != self.module.dotted:
+            return None
+        try:
+            fnode = self.module.func("%s.%s" % (cm.real.split(":")[1], name))
+        except Exception:
+            return None
+        if not isinstance(fnode, ast.FunctionDef) or fnode.decorator_list:
+            return None
+        nodes = list(ast.walk(fnode))
+        if len(nodes) > 150 or any(isinstance(n, (ast.For, ast.While, ast.Await, ast.Yield, ast.YieldFrom, ast.Lambda,
+                                                  ast.FunctionDef, ast.AsyncFunctionDef)) for n in nodes[1:]):
+            return None
+        if any(isinstance(n, ast.Attribute) and n.attr == name and isinstance(n.ctx, ast.Load) for n in nodes):
+            return None            # (mutually) recursive helpers are not unfolded
+        return fnode
 
     def real_class_name(self, cls):
         cm = C.CLASSES[cls]
